@@ -82,6 +82,12 @@ inductive Pat where
   /-- `idLen` = `id.as_ref().len()` of lib.rs:422 -/
   | ctor (sp : Span) (idLen : Nat) (args : List Pat)
   | as_ (sp : Span) (binder : Nat) (p : Pat)
+  /-- `Pattern::Record` with value fields (lib.rs:434); `fields` are `fieldShort`/`fieldVal` -/
+  | record (sp : Span) (fields : List Pat)
+  /-- `PatternField::Value { name, value: None }`: the shorthand `{ name }`, which binds `name` -/
+  | fieldShort (nameSp : Span) (binder : Nat)
+  /-- `PatternField::Value { name, value: Some(p) }`: the renaming `{ name = p }` -/
+  | fieldVal (nameSp : Span) (value : Pat)
   deriving Inhabited
 
 mutual
@@ -117,6 +123,10 @@ def Pat.span : Pat → Span
   | .tuple sp _ => sp
   | .ctor sp _ _ => sp
   | .as_ sp _ _ => sp
+  | .record sp _ => sp
+  | .fieldShort nsp _ => nsp
+  /- lib.rs:442 `Span::new(name.span.start(), value.map_or(name.span.end(), |p| p.span.end()))` -/
+  | .fieldVal nsp v => ⟨nsp.lo, v.span.hi⟩
 
 def Expr.span : Expr → Span
   | .leaf sp => sp
@@ -138,6 +148,11 @@ def Pat.binders : Pat → List Nat
   | .tuple _ ps => bindersList ps
   | .ctor _ _ ps => bindersList ps
   | .as_ _ b p => b :: p.binders
+  -- lib.rs:167-195: `Value { value: Some(p) }` ⇒ `on_pattern(p)` ONLY; `Value { value: None }` ⇒
+  -- the field name is inserted
+  | .record _ fs => bindersList fs
+  | .fieldShort _ b => [b]
+  | .fieldVal _ v => v.binders
 where
   bindersList : List Pat → List Nat
     | [] => []
@@ -162,6 +177,8 @@ inductive MKind where
 /-- What `suggest` looks at in an enclosing expression. -/
 inductive Tag where
   | plain | proj | record
+  /-- a record pattern -/
+  | recpat
   deriving DecidableEq, Repr
 
 /-- `Match` (lib.rs:45) reduced to kind, span and tag. -/
@@ -170,6 +187,10 @@ structure M where
   span : Span
   tag : Tag
   deriving DecidableEq, Repr
+
+def Pat.tag : Pat → Tag
+  | .record _ _ => .recpat
+  | _ => .plain
 
 def Expr.tag : Expr → Tag
   | .proj _ _ => .proj
@@ -262,8 +283,21 @@ inductive Next where
     recursive call. -/
 def step (fx : Bool) (pos : Nat) : Node → St → Next
   | .pat p, st0 =>
-    let st := enter ⟨.pattern, p.span, .plain⟩ pos st0
+    let st := enter ⟨.pattern, p.span, p.tag⟩ pos st0
     match p with
+    | .record _ fields =>
+      -- lib.rs:434-490 (value fields)
+      match selectSpanned Pat.span pos fields with
+      | (false, some (.fieldShort nsp _)) => .done (.ok (foundIfAt ⟨.ident, nsp, .plain⟩ pos st))
+      | (false, some (.fieldVal nsp v)) =>
+        match nsp.containment pos with
+        | .eq => .done (.ok (setFound st (.found ⟨.ident, nsp, .plain⟩)))
+        | .gt => .go (.pat v) st
+        | .lt => .done (.ok (setFound st .empty))
+      | _ => .done (.ok (setFound st .empty))
+    -- fields are handled by their record; never visited as patterns of their own
+    | .fieldShort _ _ => .done (.ok (setFound st .empty))
+    | .fieldVal _ _ => .done (.ok (setFound st .empty))
     | .as_ _ _ q => .go (.pat q) st
     | .ctor sp idLen args =>
       if (Span.mk sp.lo (sp.lo + idLen)).containment pos = .eq then
@@ -394,13 +428,16 @@ def suggest (st : St) : Sugg :=
     let all := Sugg.names (dedup (st.scope.map Prod.fst))
     match f with
     | .notFound => .names []
-    | .empty => if last.kind = .pattern then .names [] else all
+    | .empty =>
+      -- lib.rs:1451-1462: record pattern ⇒ fields of its type, other patterns ⇒ `patterns` (empty)
+      if last.kind = .pattern then (if last.tag = .recpat then .skip else .names []) else all
     | .found m =>
       match m.kind with
       | .expr => all
       | .pattern => .names []
       | .ident =>
-        if last.kind = .pattern then .names []
+        -- lib.rs:1404-1420
+        if last.kind = .pattern then (if last.tag = .recpat then .skip else .names [])
         else if last.tag = .proj then .skip
         else all
 
@@ -412,6 +449,9 @@ def Pat.height : Pat → Nat
   | .tuple _ ps => heightList ps + 1
   | .ctor _ _ ps => heightList ps + 1
   | .as_ _ _ p => p.height + 1
+  | .record _ fs => heightList fs + 1
+  | .fieldShort _ _ => 1
+  | .fieldVal _ v => v.height + 1
 where
   heightList : List Pat → Nat
     | [] => 0
